@@ -17,6 +17,21 @@ P = {
  "C19": ("exploration", "exhaustive enumeration of both sets x 3 prefix tables x every code, make and break form, on the real decoders (self-referential pairing/injectivity oracle)",
          "All complete key sequences of both sets are enumerated on fresh real decoders (bare and through Keyboard::add_byte); no reference table.",
          "None beyond the sequence grammar ([E0|E1][F0]code; Set 1 bit 7 = break).", "DESIGN.md 7/C19"),
+ "C04": ("model_checking", "explicit-state BFS (own + stateright) of the real Keyboard<Echo,_>/EventDecoder<Echo> in lock-step with the modifier reference model over 124 keys x 3 key states + mode switches; exhaustive event-history trees (depth 4 / 5) against the history form of the reference",
+         "Closed reachability search of (real decoder x R-MODS): all 512 x 2 reference states, 383k transitions per device; get_modifiers() and the modifiers shown to a recording layout compared after every transition - covers event histories of any length.",
+         "Trusted: R-MODS (events.rs rmods_step / rmods_history), written from the property text. State identity = derived PartialEq (hook H3).", "DESIGN.md 7/C04"),
+ "C05": ("fault_enumeration", "exhaustive enumeration of all 2048 11-bit words through Ps2Decoder::add_word and Keyboard::add_word plus every 1-bit and 2-bit corruption of every valid frame (whole-word and bit-serial) against a reference frame check",
+         "The input space (2048 frames) and the fault space (256 x 66 corruptions) are enumerated completely.",
+         "Trusted: R-FRAME (frame.rs r_frame) from the add_word documentation. Words above bit 10 are out of scope (C08 checks they do not panic).", "DESIGN.md 7/C05"),
+ "C06": ("model_checking", "explicit-state BFS (own + stateright) of the real Ps2Decoder x shadow frame over {bit 0, bit 1, clear} with bisimulation check of every post-frame/post-clear state against new(); exhaustive 2-frame (2^22) / 3-frame (2^33) bit-stream trees; clear() from every partial prefix x every frame",
+         "All 2047 partial-frame states x 3 actions, closed; the 11th-bit result is compared with the real whole-word decoder and with R-FRAME; hook-free confirmation over all ordered frame pairs (quick) / triples (thorough).",
+         "State identity via hook H3; R-FRAME as second opinion.", "DESIGN.md 7/C06"),
+ "C14": ("model_checking", "explicit-state BFS (own + stateright) of the real EventDecoder/Keyboard with a recording layout (echoes key, modifiers, mode, layout tag) in lock-step with R-MODS, incl. set_ctrl_handling and change_layout actions; real EventDecoder<AnyLayout> over all 10x10 layout switches x 512 modifier states by replay",
+         "Closed search over 2048 (EventDecoder, two layout tags) / 1024 (Keyboard) states x 376/374 actions: return value of every event in every reachable state is compared with what the statement prescribes.",
+         "Trusted: R-MODS supplies the 'current modifier state'. State identity = hook H3.", "DESIGN.md 7/C14"),
+ "C18": ("model_checking", "exhaustive relation sweep of the real Keyboard against a composite of three real stages (result + per-stage state via hook H4) over the product state space at deviation bound 1 (quick) / full product 2047x6x1024 and 2047x3x1024 states x 2681 operations (thorough); closed BFS (own + stateright) of (Keyboard x composite) over a reduced alphabet",
+         "Every (product state, operation) transition is executed on the real Keyboard and on the reference wiring; equality of results and of all three stage states proves isolation; closure under reachability makes it a statement about all operation sequences. The BFS over a reduced alphabet additionally covers hidden cross-stage state.",
+         "Trusted: apply_ref (compose.rs), ~20 lines transcribing the statement. The stages themselves are the real code. Layout = recording layout Echo.", "DESIGN.md 7/C18"),
 }
 NOT_YET = {}  # id -> reason (filled below for everything not in P)
 
